@@ -368,17 +368,45 @@ func emitReplay(prop string, seed uint64, v engine.ViolRec, minimise bool) (stri
 	}
 	// fresh-process verification
 	self, _ := os.Executable()
-	cmd := exec.Command(self, "replay", "--quiet", path)
-	out, err := cmd.CombinedOutput()
-	code := 0
-	if ee, ok := err.(*exec.ExitError); ok {
-		code = ee.ExitCode()
-	} else if err != nil {
+	replayOnce := func(path string) (int, []byte, error) {
+		cmd := exec.Command(self, "replay", "--quiet", path)
+		out, err := cmd.CombinedOutput()
+		if ee, ok := err.(*exec.ExitError); ok {
+			return ee.ExitCode(), out, nil
+		} else if err != nil {
+			return 0, out, err
+		}
+		return 0, out, nil
+	}
+	code, out, err := replayOnce(path)
+	if err != nil {
 		return "", err
 	}
-	if code != 1 {
-		return "", fmt.Errorf("replay of %s in a fresh process did not reproduce (exit %d): %s", path, code, out)
+	if code == 1 {
+		return path, nil
 	}
+	// The minimised schedule does not reproduce in a fresh process. The
+	// simulator is deterministic on the unchanged tree (self-test), so the
+	// tree under check does something the schedule does not control (map
+	// order, a pool, a goroutine of its own). Fall back to the complete
+	// recorded schedule and try that a few times.
+	rf.Actions, rf.Violation, rf.Digest = v.Actions, v.Violation, v.Digest
+	rf.Note = "the minimised schedule did not reproduce in a fresh process; complete recorded schedule kept"
+	b, _ = json.MarshalIndent(rf, "", " ")
+	if err := os.WriteFile(path, b, 0o644); err != nil {
+		return "", err
+	}
+	for i := 0; i < 4; i++ {
+		if code, out, err = replayOnce(path); err != nil {
+			return "", err
+		} else if code == 1 {
+			return path, nil
+		}
+	}
+	// Observed once, not reproducible on replay: still a violation of the
+	// property on this tree (the run that showed it is real), reported as
+	// such with the recorded schedule; the replay verdict is quoted.
+	fmt.Printf("note: the violation below was observed in run %d of %s but its recorded schedule does not reproduce it in a fresh process (%s): the tree under check behaves nondeterministically under one schedule\n", v.RunIndex, v.Profile, strings.TrimSpace(string(out)))
 	return path, nil
 }
 
